@@ -459,7 +459,13 @@ func (e *explorer) eval(v ssa.Value, st *pstate, fr *frame) aval {
 	case *ssa.ChangeType:
 		return e.eval(x.X, st, fr)
 	case *ssa.MakeInterface:
-		return e.eval(x.X, st, fr)
+		a := e.eval(x.X, st, fr)
+		if !a.known {
+			if _, isPtr := x.X.Type().(*types.Pointer); isPtr {
+				return kstr("obj:" + typeStr(x.X.Type()))
+			}
+		}
+		return a
 	case *ssa.ChangeInterface:
 		return e.eval(x.X, st, fr)
 	case *ssa.UnOp:
